@@ -36,7 +36,7 @@ EXTRA_INPUTS = [
 ]
 
 # inputs in the class of a known finding of the no-injection balance run: {stylesheet basename: finding id}
-KNOWN_UNBALANCED = {"ext_ns_twice.xsl": "K-new-7"}
+KNOWN_UNBALANCED = {}   # (K-new-7, ext_ns_twice.xsl, was repaired in /repo bd7b0fc: it runs as a regression input)
 
 
 def build(variant="plain"):
